@@ -111,6 +111,14 @@ def gen(seed):
         site.update({'a': 'call', 'fn': 'filterwarnings',
                      'action': rng.choice(['error', 'ignore', 'always'])})
         plan.insert(0, site)
+    if rng.random() < 0.2:
+        # a test that leaves the working directory changed (the profiler looks for its data
+        # files in the start directory by default: its tear-down then fails)
+        cfg['profile_dir_default'] = True
+        if tests:
+            d = rng.choice(tests)
+            plan.insert(0, C.fault_entry(d, rng.choice(C.test_phases(d)),
+                                         {'a': 'chdir', 'to': '/'}))
     if 'warnings' not in cfg and rng.random() < 0.4:
         # the embedding interpreter was started with -W...: the runner adds no filter of its own
         cfg['warnoptions'] = rng.choice([['ignore::ImportWarning'], ['default'], ['error::BytesWarning']])
@@ -152,8 +160,10 @@ def run(spec, ctx):
         args += ['--coverage', os.path.join(ctx.scratch, 'cov')]
     if cfg.get('profile'):
         os.makedirs(os.path.join(ctx.scratch, 'prof'), exist_ok=True)
-        args += ['--profile', 'cProfile', '--profile-directory',
-                 os.path.join(ctx.scratch, 'prof')]
+        args += ['--profile', 'cProfile']
+        if not cfg.get('profile_dir_default'):
+            # (else the default: the directory the run was started in)
+            args += ['--profile-directory', os.path.join(ctx.scratch, 'prof')]
     if cfg.get('buffer'):
         args.append('--buffer')
     if cfg.get('x'):
